@@ -46,7 +46,7 @@ def run(tier, seed):
                  "unlinks first; (R4) a dangerous symlink of a normal entry becomes a placeholder and real symlink creation of "
                  "deferred entries happens only after input and directory stack are exhausted, list kept in decreasing path length; "
                  "(R5) the strings appended to the output path start at a byte != '/'; (R6) directory metadata is applied only to "
-                 "directories whose mkdir succeeded in this run. Decides these necessary conditions, not the filesystem behaviour "
+                 "directories whose mkdir succeeded in this run; (R6c) the link-following metadata setters (utime/chmod/chown) only ever receive a path the same call created with O_EXCL or mkdir, or a re-presented directory. Decides these necessary conditions, not the filesystem behaviour "
                  "(kernel path resolution, crash points) and not collapse_path's internals.")
     with Context(tier) as ctx:
         from .. import selfcheck
